@@ -85,7 +85,7 @@ func DecodeStscSR(hdr BoxHeader, startPos uint64, sr bits.SliceReader) (Box, err
 			}
 		}
 	}
-	return &b, nil
+	return &b, sr.AccError()
 }
 
 // Type box-specific type
